@@ -14,6 +14,12 @@ LEVELS = {
     "C01": "model_checking",
     "C02": "model_checking",
     "C03": "model_checking",
+    "C15": "model_checking",
+}
+
+# property -> vlib module with run_property(prop, tier, report)
+RUNNERS = {
+    "C15": "names",
 }
 
 
@@ -22,6 +28,12 @@ def run(prop, tier, replay_path=None):
         from . import graph
         report = Report(prop, tier, LEVELS[prop])
         graph.run_property(prop, tier, report)
+        return report.finish()
+    if prop in RUNNERS:
+        import importlib
+        mod = importlib.import_module("." + RUNNERS[prop], __package__)
+        report = Report(prop, tier, LEVELS[prop])
+        mod.run_property(prop, tier, report)
         return report.finish()
     raise ToolError(f"no check registered for {prop}")
 
